@@ -14,7 +14,7 @@ Scratch state lives under /tmp/wt/mut and is deleted by `seedtest.py clean`.
 import json, os, re, shutil, subprocess, sys, time, glob
 
 VERIF = os.path.dirname(os.path.dirname(os.path.abspath(__file__)))
-MUT = '/tmp/wt/mut'
+MUT = os.environ.get('SEED_MUT', '/tmp/wt/mut')
 ENV = dict(os.environ, CARGO_NET_OFFLINE='true')
 
 
@@ -34,13 +34,14 @@ def demos(d):
 
 
 def verify(d):
+    os.makedirs(MUT, exist_ok=True)
     wt = '/tmp/wt/verify_' + str(os.getpid())
     sh(f'git -C /repo worktree remove --force {wt}')
     rc, out = sh(f'git -C /repo worktree add -q --detach {wt} HEAD')
     assert rc == 0, out
     res = {'dir': d}
     try:
-        env = dict(ENV, CARGO_TARGET_DIR='/tmp/wt/verify_target')
+        env = dict(ENV, CARGO_TARGET_DIR=os.path.join(MUT, 'verify_target'))
         ds = demos(d)
         names = []
         for f in ds:
